@@ -188,9 +188,27 @@ func (h *Handler) send(ctx context.Context, conn net.Conn, queue chan data, errC
 				return
 			}
 			if e != nil {
+				if e == core.ErrRequestEntityTooLarge {
+					linger(conn)
+				}
 				h.reportError(ctx, errChan, e)
 				return
 			}
+		}
+	}
+}
+
+// linger reads and discards what the peer is still sending after its request was
+// refused, until it closes the connection, pauses for a second or ten seconds have
+// passed: closing at once would reset the connection under the peer's pending write,
+// and it would see a broken connection instead of the reason for the refusal.
+func linger(conn net.Conn) {
+	var buf [8192]byte
+	end := time.Now().Add(10 * time.Second)
+	for time.Now().Before(end) {
+		_ = conn.SetReadDeadline(time.Now().Add(time.Second))
+		if _, err := conn.Read(buf[:]); err != nil {
+			return
 		}
 	}
 }
